@@ -69,6 +69,12 @@ def check(ctx):
             ctx.compare(rule, f"fit: {a} [{cfg}]", N, ctx.attr(st, o, a), rv, site, cfg)
         news = [e for e in I.events[lo:] if e["kind"] == "ext-new" and (e["cls"].endswith("interp1d") or e["cls"].endswith("LinearNDInterpolator"))]
         if ctx.ob("R-LOWER", f"fit builds one interpolator [{cfg}]", len(news) == 1, f"{[e['cls'] for e in news]}", site, cfg):
+            want_cls = "interp1d" if len(low) == 1 else "LinearNDInterpolator"
+            ctx.ob("R-LOWER", f"a {'one' if len(low) == 1 else 'multi'}-dimensional hull is interpolated with {want_cls} [{cfg}]", news[0]["cls"].endswith(want_cls), f"built {news[0]['cls']}", site, cfg)
+            if len(low) == 1:
+                kwv = news[0]["kwargs"]
+                axv, knd = kwv.get("axis"), kwv.get("kind")
+                ctx.ob("R-LOWER", f"1-D interpolation is linear along the sample axis [{cfg}]", (axv is None or (axv.has_const and axv.const == 0)) and (knd is None or (knd.has_const and knd.const == "linear")), f"axis={None if axv is None else axv.term!r} kind={None if knd is None else knd.term!r}", site, cfg)
             a_ = news[0]["args"]
             kw = news[0]["kwargs"]
             ptsv = kw.get("points") or (a_[0] if a_ else None)
